@@ -166,6 +166,12 @@ func c18NewWriter(r *rand.Rand, idx int, mask int) *wModel {
 	}
 	opts = append(opts, writer.WithStoreRetriever(m.backend))
 	r.Shuffle(len(opts), func(i, j int) { opts[i], opts[j] = opts[j], opts[i] })
+	if len(opts) >= 2 && r.Intn(3) == 0 {
+		// another instance is first built from a PREFIX of the same option slice (which therefore has spare
+		// capacity behind the prefix); the options behind the prefix still belong to the caller
+		_ = writer.New(opts[:1+r.Intn(len(opts)-1)]...)
+		m.optsDesc = append(m.optsDesc, "[after another writer was built from a prefix of this option slice]")
+	}
 	m.w = writer.New(opts...)
 	return m
 }
@@ -213,6 +219,10 @@ func c18NewReader(r *rand.Rand, idx int, mask int) *rModel {
 	}
 	opts = append(opts, reader.WithStoreRetriever(m.backend))
 	r.Shuffle(len(opts), func(i, j int) { opts[i], opts[j] = opts[j], opts[i] })
+	if len(opts) >= 2 && r.Intn(3) == 0 {
+		_ = reader.New(opts[:1+r.Intn(len(opts)-1)]...)
+		m.optsDesc = append(m.optsDesc, "[after another reader was built from a prefix of this option slice]")
+	}
 	m.r = reader.New(opts...)
 	return m
 }
@@ -414,6 +424,9 @@ func c18Case(c *core.C) {
 			c.Cover(fmt.Sprintf("writer-option-subset:%d", mask))
 			if strings.Contains(strings.Join(m.optsDesc, ","), "shared between constructors") {
 				c.Cover("writer-built-from-an-option-value-shared-between-constructors")
+			}
+			if strings.Contains(strings.Join(m.optsDesc, ","), "prefix of this option slice") {
+				c.Cover("writer-built-after-another-from-a-prefix-of-the-same-option-slice")
 			}
 		case kind == 1:
 			rm := r.Intn(16)
